@@ -1208,10 +1208,19 @@ func genConnScenario(r *gen.Rng, p connProfile) string {
 				ev = append(ev, "brk")
 				broken = true
 			default:
+				// Close has no context of its own: its deadline is the one second it allows the unbind, which the harness lets pass
+				// in real time — and which then passes for EVERY Close in flight, so it is scripted only for a lone one
+				closesInFlight := 0
+				for _, c := range cs {
+					if c.kind == "c" && c.stage >= 1 && c.stage <= 2 {
+						closesInFlight++
+					}
+				}
 				var w []int
 				for i, c := range cs {
 					if c.stage >= 1 && c.stage <= 2 && !c.ownDon && !(c.stage == 1 && c.answered) && !(c.answered && offeringBlocked) &&
-						!(c.stage == 1 && connDone) && !(c.stage == 1 && closeAnswerPending()) && !(c.kind == "c" && !r.Chance(8)) {
+						!(c.stage == 1 && connDone) && !(c.stage == 1 && closeAnswerPending()) && !(c.kind == "c" && !r.Chance(8)) &&
+						!(c.kind == "c" && closesInFlight > 1) {
 						w = append(w, i)
 					}
 				}
